@@ -46,6 +46,39 @@ theorem label_roundtrip {E : Quote.Env} (hE : E.Ok) (lU dU : Nat → Bool) (nfc 
     parseLabel nfc (printLabel E lU dU s) = some (.str s) := by
   rw [label_general hE lU dU nfc s hb hv, hn]; simp
 
+/-- the exporter's own label (with `package`/`import` always quoted) round-trips as well -/
+theorem exportLabel_roundtrip {E : Quote.Env} (hE : E.Ok) (lU dU : Nat → Bool) (nfc : Bytes → Bytes)
+    (s : Bytes) (hb : Quote.IsBytes s) (hv : Quote.validUTF8 s = true) (hn : nfc s = s) :
+    parseLabel nfc (exportLabel E lU dU s) = some (.str s) := by
+  unfold exportLabel
+  cases hk : isFileKeyword s with
+  | true =>
+    simp only [if_true, parseLabel]
+    rw [Quote.roundtrip_single_all hE Quote.stringForm (Or.inl ⟨rfl, rfl⟩) s hb (Or.inr hv) rfl]
+    simp [hn]
+  | false =>
+    simp only [Bool.false_eq_true, if_false]
+    exact label_roundtrip hE lU dU nfc s hb hv hn
+
+/-- an identifier the exporter prints is never `package` or `import` -/
+theorem exportLabel_ident_not_keyword (E : Quote.Env) (lU dU : Nat → Bool) (s n : Bytes)
+    (h : exportLabel E lU dU s = .ident n) :
+    isFileKeyword n = false ∧ printLabel E lU dU s = .ident n := by
+  unfold exportLabel at h
+  cases hk : isFileKeyword s with
+  | true => rw [hk] at h; simp at h
+  | false =>
+    rw [hk] at h
+    simp only [Bool.false_eq_true, if_false] at h
+    refine ⟨?_, h⟩
+    unfold printLabel at h
+    cases hq : needsQuoting lU dU s with
+    | true => rw [hq] at h; simp at h
+    | false =>
+      rw [hq] at h
+      simp only [Bool.false_eq_true, if_false, LabelSyntax.ident.injEq] at h
+      rw [← h]; exact hk
+
 theorem label_ident_safe (E : Quote.Env) (lU dU : Nat → Bool) (s n : Bytes)
     (h : printLabel E lU dU s = .ident n) :
     n = s ∧ Ident.isValidIdent lU dU (runes n) = true ∧ hasPrefixByte 35 n = false ∧
